@@ -45,7 +45,7 @@ REACH = {
         "fault_drop_n2h", "fault_corrupt_n2h", "fault_dup_n2h", "fault_stall_n2h",
         "window_1", "window_2", "window_3", "send_raised", "reactive_send_from_upper_layer_callback",
         "reads_coalesced", "duplicate_in_one_read", "reset_in_mid_session", "old_session_frame_after_host_rst",
-        "ncp_frames_acknowledged_by_a_host_that_gave_up", "fullstack_c01_judged", "fullstack_faults_both_directions"]
+        "ncp_frames_acknowledged_by_a_host_that_gave_up"]  # (the full-stack soaks report their reach, but C01 does not depend on it)
     for t in ("quick", "thorough")
 }
 SHARD_TIMEOUT = {"quick": 900, "thorough": 3600}
